@@ -51,7 +51,7 @@ def strategy_(draw, shard):
             "patch": draw(patch_ops(W)) if draw(st.booleans()) else None}
     if cmd in ("cls", "fit"):
         case.update(test_poi=draw(st.sampled_from([1.0, 0.5, 2.0, 1.5])), test_stat=draw(st.sampled_from(["qtilde", "q"])),
-                    backend=draw(st.sampled_from(["numpy", "numpy", "numpy", "pytorch", "np"])),
+                    backend=draw(st.sampled_from(["numpy", "numpy", "numpy", "pytorch", "np", "torch"])),
                     optimizer=draw(st.sampled_from(["scipy", "scipy", "minuit"])),
                     optconf=draw(st.sampled_from([[], [], ["tolerance=0.001"], ["maxiter=5000"], ["tolerance=0.001", "maxiter=6000"]])),
                     value=draw(st.booleans()))
@@ -80,6 +80,10 @@ def strategy_(draw, shard):
     if cmd == "digest":
         case["algorithms"] = draw(st.sampled_from([[], ["md5"], ["sha256", "md5"], ["sha1"], ["md5", "sha512"]]))
         case["json_out"] = draw(st.sampled_from([None, True, False]))
+    if cmd == "xmlio":
+        case["specroot"] = draw(st.sampled_from([None, None, "cfg", "xml_spec"]))
+        case["dataroot"] = draw(st.sampled_from([None, None, "rootfiles"]))
+        case["resultprefix"] = draw(st.sampled_from([None, None, "MyFit"]))
     if cmd.startswith("patchset"):
         n = draw(st.integers(1, 3))
         case["patches"] = [{"metadata": {"name": f"p{i}_{draw(st.sampled_from(['a', 'name', 'values']))}", "values": [i, draw(st.sampled_from([1.0, 2.5, 'x']))]},
@@ -193,7 +197,7 @@ def run_case(case, ctx):
             # library
             lib_ok, want = True, None
             try:
-                be = {"np": "numpy", "numpy": "numpy", "pytorch": "pytorch"}[case["backend"]]
+                be = {"np": "numpy", "numpy": "numpy", "pytorch": "pytorch", "torch": "pytorch"}[case["backend"]]
                 conf = {}
                 for oc in case["optconf"]:
                     k, v = oc.split("=")
@@ -400,6 +404,14 @@ def run_case(case, ctx):
             outd = os.path.join(tmp, "x")
             os.makedirs(outd)
             args = ["json2xml", wsf, "--output-dir", outd] + (["-p", pf] if pf else [])
+            specroot, dataroot, prefix = case.get("specroot"), case.get("dataroot"), case.get("resultprefix")
+            if specroot:
+                args += ["--specroot", specroot]
+            if dataroot:
+                args += ["--dataroot", dataroot]
+            if prefix:
+                args += ["--resultprefix", prefix]
+            specroot, dataroot, prefix = specroot or "config", dataroot or "data", prefix or "FitConfig"
             stdin_obj = None
             if case["stdin"]:
                 stdin_obj, args[1] = W, "-"
@@ -424,7 +436,14 @@ def run_case(case, ctx):
                     import_ok = True
                 except Exception:  # noqa: BLE001
                     import_ok, want = False, None
-                r2 = run.invoke(["xml2json", os.path.join(outd, "FitConfig.xml"), "--basedir", outd, "--hide-progress"])
+                # every location option must have taken effect
+                want_files = [os.path.join(outd, f"{prefix}.xml"), os.path.join(outd, dataroot, "data.root")] + [
+                    os.path.join(outd, specroot, f"{prefix}_{c['name']}.xml") for c in src["channels"]]
+                missing = [os.path.relpath(f, outd) for f in want_files if not os.path.exists(f)]
+                if missing:
+                    ctx.fail(f"{sig}/json2xml_output_locations", missing=missing, found=sorted(
+                        os.path.relpath(os.path.join(dp, f), outd) for dp, _, fs in os.walk(outd) for f in fs)[:12])
+                r2 = run.invoke(["xml2json", os.path.join(outd, f"{prefix}.xml"), "--basedir", outd, "--hide-progress"])
                 if import_ok != (r2.exit_code == 0):
                     ctx.fail(f"{sig}/xml2json_exit_status_vs_library", cli_exit=r2.exit_code, library_ok=import_ok,
                              exception=repr(r2.exception)[:300])
@@ -435,7 +454,7 @@ def run_case(case, ctx):
                         got = None
                     if got != json.loads(json.dumps(want)):
                         ctx.fail(f"{sig}/cli_round_trip_differs_from_library_round_trip", patched=bool(patch))
-            nopts = bool(pf) + case["stdin"]
+            nopts = bool(pf) + case["stdin"] + bool(case.get("specroot")) + bool(case.get("dataroot")) + bool(case.get("resultprefix"))
         ctx.label(f"cmd={cmd}", f"stdin={case['stdin']}", f"to_file={case['to_file']}")
         if patch:
             ctx.label("patch_present")
